@@ -489,11 +489,12 @@ func feedAsync(ctx context.Context, shared *wire.Link, n int, key string) {
 
 func init() {
 	core.Register(&core.Prop{
-		ID:    "C18",
-		Level: "fault_enumeration",
-		Rule:  "(sequences) 1..8 keys, 200..600 uniquely numbered envelopes with random keys on the shared link, one always-draining reader and one writer goroutine per announced logical connection: per key the sequence read equals the fed subsequence, one announcement per key, every envelope written on a logical connection arrives unchanged exactly once on the shared transport. (cancel / cancel-writer) Cancel(key) after step s, with a writer hammering the connection; (cancel-handoff) Cancel placed by a rendezvous hook exactly between Run's lookup and its hand-off; (stop / stop-handoff) Stop after step s, also while Run is parked handing over to consumers that do not read: the process must survive, reads/writes on the cancelled connection return, Run returns - all judged at final states. (rpc) C01 fan-in cases and C02 cases forced through k clients - fan-in - Demux - one Server. Distinct = case tuples; all non-trivial.",
-		Plan:  func(tier string, seed int64) int { return len(c18List(tier)) },
-		Run:   c18Run,
+		ID:             "C18",
+		Level:          "fault_enumeration",
+		Rule:           "(sequences) 1..8 keys, 200..600 uniquely numbered envelopes with random keys on the shared link, one always-draining reader and one writer goroutine per announced logical connection: per key the sequence read equals the fed subsequence, one announcement per key, every envelope written on a logical connection arrives unchanged exactly once on the shared transport. (cancel / cancel-writer) Cancel(key) after step s, with a writer hammering the connection; (cancel-handoff) Cancel placed by a rendezvous hook exactly between Run's lookup and its hand-off; (stop / stop-handoff) Stop after step s, also while Run is parked handing over to consumers that do not read: the process must survive, reads/writes on the cancelled connection return, Run returns - all judged at final states. (rpc) C01 fan-in cases and C02 cases forced through k clients - fan-in - Demux - one Server. Distinct = case tuples; all non-trivial.",
+		Plan:           func(tier string, seed int64) int { return len(c18List(tier)) },
+		ThoroughRounds: 8,
+		Run:            c18Run,
 		RequiredStats: func(string) []string {
 			return []string{"logical_writes_checked", "cancels", "cancel_between_lookup_and_handoff", "stop_while_run_is_handing_off", "stops_checked", "rpc_workload_cases_through_demux", "cancelled_connections_checked"}
 		},
